@@ -152,9 +152,19 @@ fn run_fsink(seed: u64) -> Result<u64, Fail> {
                 (_, _, Err(e)) => { res = Err(fail(t, "C17", "mode-table", format!("{desc}: open failed: {e}"), seed)); break 'outer; }
                 (_, _, Ok(mut sink)) => {
                     let mut pos = 0;
+                    let base: Vec<u8> = match (mi, init) { (2, Some(c)) => c.clone(), _ => vec![] };
                     while pos < data.len() {
                         feed(&w, &data, &mut pos, 3, &no_tags);
                         if let Err(f) = work(t, seed, &mut sink) { res = Err(f); break 'outer; }
+                        // C17: whatever the sink has consumed when work() returns is in the file already
+                        let consumed = pos - (1_024_000 * 4 - w.free());
+                        let on_disk = std::fs::read(&path).unwrap();
+                        let mut must = base.clone();
+                        must.extend(&data[..consumed]);
+                        if on_disk.len() < must.len() || on_disk[..must.len()] != must[..] {
+                            res = Err(fail(t, "C17", "consumed-means-on-disk", format!("{desc}: work() returned with {consumed} samples consumed but the file holds {} of the {} bytes that must be there", on_disk.len(), must.len()), seed));
+                            break 'outer;
+                        }
                     }
                     let _ = work(t, seed, &mut sink);
                     drop(sink);
@@ -165,6 +175,31 @@ fn run_fsink(seed: u64) -> Result<u64, Fail> {
                         res = Err(fail(t, "C17", "mode-table", format!("{desc}: after writing {} bytes the file holds {} bytes {:?}.., specified {} bytes {:?}..", data.len(), now.len(), &now[..now.len().min(6)], want.len(), &want[..6]), seed));
                         break 'outer;
                     }
+                }
+            }
+        }
+    }
+    // a backlog: far more input than one call handles; after EVERY call what was consumed must be on disk
+    if res.is_ok() {
+        let path = dir.join("backlog");
+        let (w, r) = new_stream::<Float>();
+        let big: Vec<Float> = (0..20_000).map(|i| i as Float).collect();
+        let mut pos = 0;
+        feed(&w, &big, &mut pos, usize::MAX, &no_tags);
+        match FileSink::new(r, &path, Mode::Create) {
+            Err(e) => res = Err(fail(t, "C17", "mode-table", format!("create on an absent file failed: {e}"), seed)),
+            Ok(mut sink) => {
+                for _ in 0..40 {
+                    if let Err(f) = work(t, seed, &mut sink) { res = Err(f); break; }
+                    n += 1;
+                    let consumed = pos - (1_024_000 - w.free());
+                    let on_disk = std::fs::read(&path).unwrap();
+                    let must: Vec<u8> = big[..consumed].iter().flat_map(|v| v.to_le_bytes()).collect();
+                    if on_disk.len() < must.len() || on_disk[..must.len()] != must[..] {
+                        res = Err(fail(t, "C17", "consumed-means-on-disk", format!("backlog of {} samples: work() returned with {consumed} consumed but the file holds {} of the {} bytes that must be there", big.len(), on_disk.len(), must.len()), seed));
+                        break;
+                    }
+                    if consumed == big.len() { break; }
                 }
             }
         }
@@ -422,6 +457,20 @@ fn run_audec(seed: u64) -> Result<u64, Fail> {
                 idle = if pos == data.len() && fed == 0 && d == 0 && v != 0 { idle + 1 } else { 0 };
             }
             drain(&o, usize::MAX, &mut got);
+            if well_formed && !errored {
+                // C09: the writer goes away with one odd byte left over; the decoder must end up waiting on its (ended)
+                // INPUT -- a runner retires a block only when the stream it waits for is closed
+                drop(w);
+                let closed_wait = std::panic::catch_unwind(std::panic::AssertUnwindSafe(|| match b.work() {
+                    Ok(BlockRet::WaitForStream(s, _)) => s.closed(),
+                    Ok(BlockRet::EOF) => true,
+                    _ => false,
+                }));
+                works += 1;
+                if !matches!(closed_wait, Ok(true)) {
+                    return Err(fail(t, "C09", "waits-on-the-ended-input-at-end-of-stream", format!("data offset {off}: input ended (one odd byte left), output has room, and the verdict is not a wait on the ended input"), seed));
+                }
+            }
             if well_formed {
                 let want: Vec<Float> = payload.chunks_exact(2).map(|c| i16::from_be_bytes([c[0], c[1]]) as Float / 32767.0).collect();
                 let same = got.len() == want.len() && got.iter().zip(want.iter()).all(|(a, b)| a.to_bits() == b.to_bits());
@@ -618,11 +667,58 @@ fn run_totext(seed: u64) -> Result<u64, Fail> {
     }
     if outs[0] != outs[1] {
         let k = outs[0].iter().zip(outs[1].iter()).position(|(x, y)| x != y).unwrap_or(outs[0].len().min(outs[1].len()));
-        return Err(fail(t, "C08", "text-independent-of-chunking", format!("{} bytes one-shot, {} drip-fed; first difference at byte {k}", outs[0].len(), outs[1].len()), seed));
+        return Err(fail(t, "C08+C10", "text-independent-of-chunking", format!("{} bytes one-shot, {} drip-fed; first difference at byte {k}", outs[0].len(), outs[1].len()), seed));
     }
     let lines = outs[0].iter().filter(|c| **c == b'\n').count();
     if lines != b.len() {
         return Err(fail(t, "C10", "one-line-per-complete-sample-tuple", format!("{lines} lines for {} complete sample pairs", b.len()), seed));
+    }
+    Ok(works)
+}
+
+// ------------------------------------------------------------------------------------------------ misc
+/// SignalSourceFloat / SignalSourceComplex / VectorSink verdicts (C09): a generator whose output is full must wait, not
+/// ask to be called again; a full sink must not wait for input that is already there
+fn run_misc(seed: u64) -> Result<u64, Fail> {
+    let t = "misc";
+    let mut works = 0;
+    for which in 0..2 {
+        // fill the output completely, then keep calling: every further call must be a wait and change nothing
+        let (v0, fill0, v1, fill1) = if which == 0 {
+            let (mut b, o) = SignalSourceFloat::new(48000.0, 1000.0, 1.0);
+            let v0 = work(t, seed, &mut b)?; let f0 = o.read_buf().unwrap().0.len();
+            let v1 = work(t, seed, &mut b)?; let f1 = o.read_buf().unwrap().0.len();
+            (v0, f0, v1, f1)
+        } else {
+            let (mut b, o) = SignalSourceComplex::new(48000.0, 1000.0, 1.0);
+            let v0 = work(t, seed, &mut b)?; let f0 = o.read_buf().unwrap().0.len();
+            let v1 = work(t, seed, &mut b)?; let f1 = o.read_buf().unwrap().0.len();
+            (v0, f0, v1, f1)
+        };
+        works += 2;
+        if !(v0 == 0 && fill0 > 0) {
+            return Err(fail(t, "C09", "signal-source-fills-the-output", format!("first call: verdict {v0}, {fill0} samples"), seed));
+        }
+        if v1 == 0 && fill1 == fill0 {
+            return Err(fail(t, "C09", "again-means-progress", format!("signal source {which}: output full ({fill0} samples), nothing produced, verdict Again"), seed));
+        }
+    }
+    // VectorSink: full storage, input keeps coming
+    let (w, r) = new_stream::<u32>();
+    let mut sink = VectorSink::new(r, 5);
+    let data: Vec<u32> = (0..40).collect();
+    let mut pos = 0;
+    for _ in 0..10 {
+        feed(&w, &data, &mut pos, 4, &no_tags);
+        let v = work(t, seed, &mut sink)?;
+        works += 1;
+        let pending = 1_024_000 - w.free();
+        if v == 1 && pending > 0 && sink.hook().data().samples().len() >= 5 {
+            return Err(fail(t, "C09", "wait-names-the-blocking-stream", format!("VectorSink is full, {pending} samples wait in its input, and it reports a wait for input"), seed));
+        }
+    }
+    if sink.hook().data().samples() != &[0u32, 1, 2, 3, 4][..] {
+        return Err(fail(t, "C09", "sink-stores-the-first-max_size-samples", format!("stored {:?}", sink.hook().data().samples()), seed));
     }
     Ok(works)
 }
@@ -644,6 +740,12 @@ fn run_wpcr(seed: u64) -> Result<u64, Fail> {
             for phase in 0..period.min(3) {
                 bursts.push((0..len).map(|i| if ((i + phase) % period) * 2 < period { 1.0 } else { -1.0 }).collect());
             }
+        }
+    }
+    // constant bursts of many values and lengths (the f32 mean of equal values need not be that value)
+    for len in 1..=12usize {
+        for v in [0.1f32, 0.3, 0.7, 0.9, -0.9, 1.0e-3, 16_777_217.0, 1.0e30, -0.0] {
+            bursts.push(vec![v; len]);
         }
     }
     // degenerate values
@@ -683,7 +785,7 @@ fn bx_io() {
             }
         }
     }));
-    let targets = std::env::var("BX_TARGETS").unwrap_or_else(|_| "rtlsdr,fsink,s2pdu,auenc,audec,sigmf,tcp,wpcr,il2p,stream,totext".into());
+    let targets = std::env::var("BX_TARGETS").unwrap_or_else(|_| "rtlsdr,fsink,s2pdu,auenc,audec,sigmf,tcp,wpcr,il2p,stream,totext,misc".into());
     let n: u64 = std::env::var("BX_N").ok().and_then(|s| s.parse().ok()).unwrap_or(40);
     let base: u64 = std::env::var("VERIF_SEED").ok().and_then(|s| s.parse().ok()).unwrap_or(1);
     let mut failed = false;
@@ -702,6 +804,7 @@ fn bx_io() {
                 "wpcr" => { if i > 0 { break; } run_wpcr(seed) }
                 "il2p" => run_il2p(seed),
                 "stream" => run_stream(seed),
+                "misc" => { if i > 0 { break; } run_misc(seed) }
                 "totext" => { if i > 7 { break; } run_totext(seed) }
                 "audec" => { if i > 1 { break; } run_audec(seed) }
                 "sigmf" => { if i > 1 { break; } run_sigmf(seed) }
